@@ -70,7 +70,7 @@ Definition hh_update_packet (s : hstate) (p : list N) : hstate := hh_update s (p
 Definition rotl32 (x count : N) : N :=
   N.land (N.lor (N.shiftl x count) (N.shiftr x (32 - count))) M32.
 Definition rotate32by (count : N) (x : N) : N :=
-  N.lor (rotl32 (N.land x M32) count) (N.shiftl (rotl32 (N.shiftr x 32) count) 32).
+  N.lor (rotl32 (N.land x M32) count) (N.shiftl (rotl32 (N.land (N.shiftr x 32) M32) count) 32).
 
 (* the packet built by HighwayHashUpdateRemainder, byte i, for size_mod32 = length bytes in 1..31 *)
 Definition remainder_byte (bytes : list N) (i : nat) : N :=
